@@ -180,9 +180,9 @@ def run(repo: Repo, rep: Report, tier: str) -> None:
         if isinstance(sch, dict) and isinstance(sch.get("propertyNames"), dict):
             pn = sch["propertyNames"]
             if pn.get("type") not in (None, "string") and "anyOf" not in pn:
-                rep.violation("R06.4", f"{M_SCHEMA}::on_collection", f"propertyNames of type {pn.get('type')}",
+                rep.violation("R06.4", f"{M_SCHEMA}::on_collection", "propertyNames is the key type's own schema, not a string schema",
                               "JSON object keys are strings whatever the Python key type: a propertyNames schema of another type rejects every serialized mapping with at least one key",
-                              example=e.name, schema=sch)
+                              example=e.name, schema=sch, key_schema_type=pn.get("type"))
             else:
                 rep.ok("R06.4", f"{e.name}: propertyNames {pn}", None)
         # R06.6 tuple arithmetic
